@@ -81,6 +81,8 @@ def conjuncts(fn, e, out=None):
         l, r = ir.peel(fn, e[2]), ir.peel(fn, e[3])
         if isinstance(l, list) and l[0] == "c" and isinstance(r, list) and r[0] == "i":
             out.append((l, e[1], r[1]))
+        elif isinstance(r, list) and r[0] == "c" and isinstance(l, list) and l[0] == "i":
+            out.append((r, e[1], l[1]))       # the constant written first: RLC_EQ == cmp(..)
     elif e[0] == "c":
         out.append((e, "!=", 0))
     elif e[0] == "u" and e[1] == "!":
